@@ -304,10 +304,18 @@ func engineC08(c *vctx) error {
 
 	// ---- histories ----
 	rng0 := c.rng.fork()
-	for n := c.n(70, 1500); n > 0; n-- {
+	total := c.n(70, 1500)
+	// the first three histories are fixed: one file removed while another is added between two loads
+	// of the same MasterIndex (same count, different set), with a value of exactly 2^32-1 in file 0
+	scriptSets := [][]int{{0, 1}, {1, 2}, {0, 2}, {2}, {0, 1, 2}}
+	for n := total; n > 0; n-- {
 		rng := rng0.fork()
 		repo := &c08Repo{files: map[restic.ID][]byte{}}
 		nfiles := 2 + rng.intn(5)
+		scripted := n > total-3
+		if scripted {
+			nfiles = 3
+		}
 		var pool []restic.ID
 		fileNo := map[restic.ID]uint64{}
 		var repoTerm []string
@@ -315,7 +323,15 @@ func engineC08(c *vctx) error {
 		shared := false
 		for f := 0; f < nfiles; f++ {
 			var sects []c08Sect
-			for s := rng.intn(4); s > 0; s-- {
+			if scripted {
+				e := c08Entry{pack: uint64(f + 1), typ: uint64(restic.DataBlob), id: uint64(f + 1), off: 40, length: 40 + uint64(total-n), ulen: 0}
+				if f == 0 {
+					e.off, e.ulen = 4294967295, 4294967295
+				}
+				sects = []c08Sect{{pack: e.pack, blobs: []c08Entry{e, {pack: e.pack, typ: uint64(restic.TreeBlob), id: 6, off: 100, length: 4294967295, ulen: 0}}}}
+				all = append(all, sects[0].blobs...)
+			}
+			for s := rng.intn(4); s > 0 && !scripted; s-- {
 				sec := c08Sect{pack: uint64(1 + rng.intn(5))}
 				for b := rng.intn(4); b > 0; b-- {
 					var e c08Entry
@@ -340,7 +356,7 @@ func engineC08(c *vctx) error {
 				sects = append(sects, sec)
 			}
 			var raw []byte
-			if rng.chance(25) && len(sects) > 0 { // produced by the real encoder
+			if rng.chance(25) && len(sects) > 0 && !scripted { // produced by the real encoder
 				idx := index.NewIndex()
 				for _, sec := range sects {
 					var bl pack.Blobs
@@ -355,22 +371,19 @@ func engineC08(c *vctx) error {
 					return err
 				}
 				raw = buf.Bytes()
-				// the encoder drops empty pack sections and regroups: describe the file by what it contains
-				dec, err := index.DecodeIndex(raw, restic.ID{})
-				if err != nil {
-					return err
-				}
+				// the encoder groups by pack id and drops packs without blobs: describe the file accordingly
+				// (computed here, not by decoding: the description must not depend on the decoder under test)
 				bySect := map[uint64]*c08Sect{}
 				var order []uint64
-				for pb := range dec.Values() {
-					e := c08FromPB(pb)
-					if bySect[e.pack] == nil {
-						bySect[e.pack] = &c08Sect{pack: e.pack}
-						order = append(order, e.pack)
+				for _, sec := range sects {
+					for _, e := range sec.blobs {
+						if bySect[e.pack] == nil {
+							bySect[e.pack] = &c08Sect{pack: e.pack}
+							order = append(order, e.pack)
+						}
+						bySect[e.pack].blobs = append(bySect[e.pack].blobs, e)
 					}
-					bySect[e.pack].blobs = append(bySect[e.pack].blobs, e)
 				}
-				sort.Slice(order, func(i, j int) bool { return order[i] < order[j] })
 				sects = nil
 				for _, p := range order {
 					sects = append(sects, *bySect[p])
@@ -399,12 +412,25 @@ func engineC08(c *vctx) error {
 		present := map[restic.ID]bool{}
 		var steps []string
 		nsteps := 2 + rng.intn(5)
+		if scripted {
+			nsteps = len(scriptSets)
+		}
 		removed := false
 		panicked := false
 		for s := 0; s < nsteps && !panicked; s++ {
 			// change the directory: add / remove / supersede (= add + remove)
+			if scripted {
+				present = map[restic.ID]bool{}
+				for _, k := range scriptSets[s] {
+					if k < len(pool) {
+						present[pool[k]] = true
+					}
+				}
+				removed = true
+			}
 			for _, id := range pool {
 				switch {
+				case scripted:
 				case !present[id] && rng.chance(45):
 					present[id] = true
 				case present[id] && rng.chance(20):
@@ -465,6 +491,9 @@ func engineC08(c *vctx) error {
 		kind := "hist"
 		if removed {
 			kind = "hist+remove"
+		}
+		if scripted {
+			kind = "hist-swap-one-file"
 		}
 		c.Hist(fmt.Sprintf("files=%d", len(pool)))
 		c.Hist(fmt.Sprintf("shared=%v", shared))
